@@ -51,7 +51,7 @@ func (tw *tokenWorld) viol(prop, rule, site, format string, a ...any) {
 	tw.o.Violate(prop, rule, tw.site(site), tw.step, format, a...)
 }
 
-var honestClients = []string{"web", "post", "pub", "native", "jwt"}
+var honestClients = []string{"web", "post", "pub", "native", "jwt", "hyb"}
 
 // obtain runs an honest code flow for a random usable client.
 func (tw *tokenWorld) obtain(ch *kernel.Chooser) string {
@@ -100,7 +100,16 @@ func (tw *tokenWorld) pickPresentation(ch *kernel.Chooser, target string) presen
 	w := tw.w
 	now := time.Now()
 	c := w.Store.Clients[target]
-	switch x := ch.Int(20); {
+	switch x := ch.Int(22); {
+	case x >= 20: // authenticates correctly as itself while the body names another client
+		p := rightPresentation(w, target)
+		if p.creds.Mode == "basic" || p.creds.Mode == "assertion" {
+			others := slices.DeleteFunc(w.SortedClients(), func(s string) bool { return s == target })
+			p.creds.BodyClientID = others[ch.Int(len(others))]
+			p.label = "right+body-names-" + p.creds.BodyClientID
+			p.bodyClient = p.creds.BodyClientID
+		}
+		return p
 	case x < 8:
 		return rightPresentation(w, target)
 	case x == 8:
@@ -733,6 +742,41 @@ func (tw *tokenWorld) otherGrant(ch *kernel.Chooser) string {
 	return desc + " TOKENS"
 }
 
+// codeGrant: an honest authorization, then the code is redeemed with an arbitrary credential presentation (C05).
+func (tw *tokenWorld) codeGrant(ch *kernel.Chooser) string {
+	w := tw.w
+	client := honestClients[ch.Int(len(honestClients))]
+	pk := ""
+	if w.Store.Clients[client].Public() || ch.Bool(1, 2) {
+		pk = "S256"
+	}
+	s, err := authorizeToCode(w, tw.b, flowOpts{client: client, pkce: map[bool]string{true: pk, false: "none"}[pk != ""]})
+	if err != nil || s.code == "" {
+		return fmt.Sprintf("code grant %s: no code (%v)", client, err)
+	}
+	p := tw.pickPresentation(ch, client)
+	r := w.PostForm("/oauth/token", codeForm(s), p.creds)
+	desc := fmt.Sprintf("code grant of %s pkce=%q redeemed with %s -> %d", client, pk, p.label, statusOf(r))
+	if panicProbe(tw.o, r) || r.Err != nil {
+		return desc
+	}
+	tr, ok := isTokenSuccess(r)
+	if !ok {
+		tw.checkRefusal(r, desc)
+		return desc
+	}
+	tw.o.Probe("other-grant-success")
+	allowed, und, why := authAllowed(w, p, true, w.Conf.AuthMethodPrivateKeyJWT, time.Now())
+	if !und && !allowed {
+		tw.viol("C05", "unauthenticated-success", "token/authorization_code/"+why, "%s: tokens issued although presentation %q does not authenticate client %q (%s)", desc, p.label, client, why)
+	}
+	if p.claimedClient() != client {
+		tw.viol("C05", "unauthenticated-success", "token/authorization_code/other-client", "%s: tokens issued to a caller that presented itself as %q", desc, p.claimedClient())
+	}
+	tw.pool = append(tw.pool, &grantedToken{access: tr.AccessToken, refresh: tr.RefreshToken, idToken: tr.IDToken, client: client, subject: "u1", scopes: []string{oidc.ScopeOpenID}, original: []string{oidc.ScopeOpenID}, flow: "code"})
+	return desc + " TOKENS"
+}
+
 func grantName(g oidc.GrantType) string {
 	s := string(g)
 	if i := strings.LastIndexAny(s, ":"); i >= 0 {
@@ -754,7 +798,7 @@ func runTokenWorld(t *testing.T, spec kernel.Spec, prop string, weights map[stri
 			f    func(*kernel.Chooser) string
 		}
 		ops := []op{{"obtain", tw.obtain}, {"refresh", tw.refresh}, {"userinfo", tw.userinfo}, {"introspect", tw.introspect},
-			{"revoke", tw.revoke}, {"end_session", tw.endSession}, {"advance", tw.advance}, {"other", tw.otherGrant}}
+			{"revoke", tw.revoke}, {"end_session", tw.endSession}, {"advance", tw.advance}, {"other", tw.otherGrant}, {"code", tw.codeGrant}}
 		total := 0
 		for _, op := range ops {
 			total += weights[op.name]
@@ -792,7 +836,7 @@ func RunC08(t *testing.T, spec kernel.Spec) *kernel.Outcome {
 }
 
 func RunC05(t *testing.T, spec kernel.Spec) *kernel.Outcome {
-	o := runTokenWorld(t, spec, "C05", map[string]int{"obtain": 3, "refresh": 4, "introspect": 4, "revoke": 3, "other": 8, "advance": 1})
+	o := runTokenWorld(t, spec, "C05", map[string]int{"obtain": 3, "refresh": 4, "introspect": 4, "revoke": 3, "other": 8, "advance": 1, "code": 5})
 	o.Nontrivial = o.Probes["refresh-success"]+o.Probes["introspect-active"]+o.Probes["other-grant-success"]+o.Probes["device-code-issued"] > 0
 	return o
 }
